@@ -1,17 +1,142 @@
 package main
 
 import (
+	"flag"
 	"fmt"
-	"golang.org/x/tools/go/packages"
-	"golang.org/x/tools/go/ssa"
-	"golang.org/x/tools/go/ssa/ssautil"
+	"os"
+	"sort"
+	"strings"
 )
 
 func main() {
-	cfg := &packages.Config{Mode: packages.LoadAllSyntax, Dir: "/repo", BuildFlags: []string{"-tags=verif"}}
-	pkgs, err := packages.Load(cfg, "./...")
-	if err != nil { panic(err) }
-	prog, spkgs := ssautil.AllPackages(pkgs, ssa.NaiveForm|ssa.GlobalDebug)
-	prog.Build()
-	for _, p := range spkgs { if p != nil { fmt.Println(p.Pkg.Path(), len(p.Members)) } }
+	if len(os.Args) < 2 {
+		fmt.Fprintln(os.Stderr, "usage: govc verify|check|list ...")
+		os.Exit(2)
+	}
+	switch os.Args[1] {
+	case "verify":
+		cmdVerify(os.Args[2:])
+	case "check":
+		os.Exit(cmdCheck(os.Args[2:]))
+	case "list":
+		cmdList(os.Args[2:])
+	default:
+		fmt.Fprintln(os.Stderr, "unknown command", os.Args[1])
+		os.Exit(2)
+	}
 }
+
+func envOr(k, d string) string {
+	if v := os.Getenv(k); v != "" {
+		return v
+	}
+	return d
+}
+
+// cmdVerify: developer view of the obligations of some functions.
+func cmdVerify(args []string) {
+	fs := flag.NewFlagSet("verify", flag.ExitOnError)
+	repo := fs.String("repo", envOr("GOVC_REPO", "/repo"), "repository")
+	spec := fs.String("spec", envOr("GOVC_SPEC", "/verif/spec"), "spec dir")
+	timeout := fs.Int("timeout", 10, "solver timeout (s)")
+	verbose := fs.Bool("v", false, "show discharged obligations too")
+	fs.Parse(args)
+	initScratch()
+	defer cleanupScratch()
+	eng, err := NewEngine(*repo, *spec)
+	if err != nil {
+		fmt.Fprintln(os.Stderr, err)
+		os.Exit(2)
+	}
+	var keys []string
+	for _, a := range fs.Args() {
+		matched := false
+		for k := range eng.fnByKey {
+			if k == a || strings.HasSuffix(k, "."+a) || strings.HasSuffix(k, "/"+a) {
+				keys = append(keys, k)
+				matched = true
+			}
+		}
+		if !matched {
+			fmt.Println("no function matches", a)
+		}
+	}
+	sort.Strings(keys)
+	var results []*FnResult
+	for _, k := range keys {
+		results = append(results, eng.VerifyFunction(k))
+	}
+	eng.Discharge(results, *timeout, 12)
+	for _, r := range results {
+		fmt.Printf("== %s (mode %s, %.2fs gen)\n", r.Key, r.Mode, r.Seconds)
+		for _, e := range r.Errs {
+			fmt.Println("   ERROR:", e)
+		}
+		for _, k := range sortedKeys(r.Abstr) {
+			fmt.Printf("   abstracted: %s (x%d)\n", k, r.Abstr[k])
+		}
+		n, d := 0, 0
+		for _, ob := range r.Obs {
+			n++
+			if ob.Status == "discharged" {
+				d++
+				if !*verbose {
+					continue
+				}
+			}
+			extra := ""
+			if ob.Result != nil {
+				extra = fmt.Sprintf(" [%s %.2fs]", ob.Result.Solver, ob.Result.Seconds)
+				if ob.Status == "failed" && !ob.Cover {
+					extra += " model: " + modelSummary(ob.Result.Model)
+				}
+				if ob.Status == "unknown" {
+					extra += " " + strings.ReplaceAll(ob.Result.Output, "\n", " | ")
+				}
+			}
+			opt := ""
+			if ob.Optional {
+				opt = " (optional)"
+			}
+			fmt.Printf("   %-10s %s%s%s  %s\n", ob.Status, ob.Name, opt, extra, ob.Goal)
+		}
+		fmt.Printf("   %d/%d discharged\n", d, n)
+	}
+}
+
+func modelSummary(m map[string]string) string {
+	var ks []string
+	for k := range m {
+		if strings.HasPrefix(k, "p.") || strings.Contains(k, "!") && len(m[k]) < 40 {
+			ks = append(ks, k)
+		}
+	}
+	sort.Strings(ks)
+	var out []string
+	for _, k := range ks {
+		if len(out) > 24 {
+			break
+		}
+		if strings.HasPrefix(k, "p.") {
+			out = append(out, k+"="+m[k])
+		}
+	}
+	return strings.Join(out, " ")
+}
+
+func cmdList(args []string) {
+	initScratch()
+	defer cleanupScratch()
+	eng, err := NewEngine(envOr("GOVC_REPO", "/repo"), envOr("GOVC_SPEC", "/verif/spec"))
+	if err != nil {
+		fmt.Fprintln(os.Stderr, err)
+		os.Exit(2)
+	}
+	for _, k := range sortedKeys(eng.specs.Contracts) {
+		c := eng.specs.Contracts[k]
+		_, found := eng.fnByKey[k]
+		fmt.Printf("%-70s mode=%s props=%v assumed=%v found=%v\n", k, c.Mode, c.Props, c.Assumed, found)
+	}
+}
+
+func cmdCheck(args []string) int { return 2 }
